@@ -20,6 +20,7 @@ type stmtGenOpts struct {
 	ScopeHeavy bool
 	Tracers    bool // wrap conditions, loop metadata and loop variables in tr(id)
 	IllTyped   int  // one in IllTyped assignments/bindings changes a type (0 = never)
+	Syntax     bool // also emit constructs that only matter to the lexer/parser (comments, @dump, object literals, layout and component directives)
 }
 
 type stmtGen struct {
@@ -217,6 +218,9 @@ func (g *stmtGen) stmt(depth int) []model.Stmt {
 	}
 	if depth <= 0 {
 		ifW, loopW = 0, 0
+	}
+	if g.o.Syntax && r.Intn(5) == 0 {
+		return g.syntaxStmt(depth)
 	}
 	switch {
 	case w < ifW:
@@ -428,4 +432,58 @@ func (g *stmtGen) forStmt(depth int) model.Stmt {
 		g.pop()
 	}
 	return n
+}
+
+// syntaxStmt emits constructs whose rendering no model is asked about
+func (g *stmtGen) syntaxStmt(depth int) []model.Stmt {
+	r := g.r
+	name := []string{"main", "side", "a b", "x"}[r.Intn(4)]
+	obj := func() model.ObjLit {
+		ol := model.ObjLit{}
+		for i, k := range []string{"a", "b", "c"}[:1+r.Intn(3)] {
+			ol.Keys = append(ol.Keys, k)
+			if i == 1 && r.Intn(3) == 0 {
+				ol.Vals = append(ol.Vals, model.ObjLit{Keys: []string{"n"}, Vals: []model.Expr{g.expr(model.KInt, 1)}})
+			} else {
+				ol.Vals = append(ol.Vals, g.expr(g.anyKind(), 1))
+			}
+		}
+		return ol
+	}
+	switch r.Intn(9) {
+	case 0:
+		return []model.Stmt{model.Comment{Body: []string{" note ", "", " {{ x }} @if(y) ", "\n multi\n line\n", " - -- } "}[r.Intn(5)]}}
+	case 1:
+		return []model.Stmt{model.Dump{Args: []model.Expr{g.expr(g.anyKind(), 1), obj()}[:1+r.Intn(2)]}}
+	case 2:
+		return []model.Stmt{model.Print{E: model.Dot{X: obj(), Name: "a"}}}
+	case 3:
+		return []model.Stmt{model.Reserve{Name: name}}
+	case 4:
+		return []model.Stmt{model.Use{Name: "~" + name}}
+	case 5:
+		// the block form is only written at the top level of a page
+		if r.Intn(2) == 0 || depth < g.o.MaxDepth {
+			return []model.Stmt{model.Insert{Name: name, E: g.expr(g.anyKind(), 1)}}
+		}
+		g.push()
+		b := g.block(1+r.Intn(2), depth-1)
+		g.pop()
+		return []model.Stmt{model.Insert{Name: name, Block: b}}
+	case 6:
+		cmp := model.Component{Name: "~" + name}
+		if r.Intn(2) == 0 {
+			o := obj()
+			cmp.Args = &o
+		}
+		for i := 0; i < r.Intn(3); i++ {
+			g.push()
+			cmp.Slots = append(cmp.Slots, model.SlotBody{Name: []string{"", "head", "foot"}[i], Body: g.block(1, depth-1)})
+			g.pop()
+		}
+		return []model.Stmt{cmp, g.safeText()}
+	case 7:
+		return []model.Stmt{model.SlotRef{Name: []string{"", "head"}[r.Intn(2)]}, g.safeText()}
+	}
+	return []model.Stmt{model.Assign{Name: "o", E: obj()}}
 }
